@@ -108,9 +108,26 @@ class Resolver:
                     if cs:
                         env.setdefault(n.target.id, set()).update(cs)
                 elif isinstance(n, (ast.For, ast.comprehension)) and isinstance(n.target, ast.Name):
-                    cs = self.iter_elem_classes(func, n.iter, env, strong)
+                    it = n.iter
+                    while isinstance(it, ast.Call) and isinstance(it.func, ast.Name) and it.func.id in ("reversed", "list", "tuple", "sorted", "iter") and it.args:
+                        it = it.args[0]
+                    cs = self.iter_elem_classes(func, it, env, strong)
                     if cs:
                         env.setdefault(n.target.id, set()).update(cs)
+                elif isinstance(n, (ast.For, ast.comprehension)) and isinstance(n.target, ast.Tuple) and isinstance(n.iter, ast.Call) \
+                        and isinstance(n.iter.func, ast.Name) and n.iter.func.id in ("enumerate", "zip"):
+                    # for i, x in enumerate(xs) / for a, b in zip(xs, ys)
+                    if n.iter.func.id == "enumerate" and len(n.target.elts) == 2 and n.iter.args:
+                        pairs = [(n.target.elts[1], n.iter.args[0])]
+                    elif n.iter.func.id == "zip" and len(n.target.elts) == len(n.iter.args):
+                        pairs = list(zip(n.target.elts, n.iter.args))
+                    else:
+                        pairs = []
+                    for t, it in pairs:
+                        if isinstance(t, ast.Name) and not isinstance(it, ast.Starred):
+                            cs = self.iter_elem_classes(func, it, env, strong)
+                            if cs:
+                                env.setdefault(t.id, set()).update(cs)
                 elif isinstance(n, ast.withitem) and isinstance(n.optional_vars, ast.Name):
                     cs = self.expr_classes(func, n.context_expr, env, strong)
                     if cs:
